@@ -32,7 +32,7 @@ FILES = {
     "dkg_feldmanvssq.go": ["C07", "C08", "C10"],
     "dkg_jointfeldman.go": ["C07", "C10", "C08"],
     "ecdsa.go": ["C11", "C05", "C12"],
-    "sign.go": ["C12", "C05", "C11"],
+    "sign.go": ["C12", "C05", "C11", "C09", "C16"],
     "hash/keccak.go": ["C13"],
     "hash/kmac.go": ["C13"],
     "hash/sha2.go": ["C13"],
@@ -41,7 +41,7 @@ FILES = {
     "hash/xor_unaligned.go": ["C13"],
     "random/rand.go": ["C15", "C14"],
     "random/chacha20.go": ["C14", "C15"],
-    "bls12381_utils.c": ["C05", "C01", "C04", "C02"],
+    "bls12381_utils.c": ["C05", "C01", "C04", "C02", "C12", "C07"],
     "bls_core.c": ["C01", "C02", "C03", "C17"],
     "bls_thresholdsign_core.c": ["C06"],
     "dkg_core.c": ["C07", "C08", "C06"],
